@@ -250,6 +250,21 @@ impl ProgCheck {
                         ));
                         CaseOut::pass(nt, key).labelled(labels)
                     }
+                    // a program whose Go does not build has no behaviour at all: when it
+                    // exercises this property's feature (non-trivial by the rule) that is a
+                    // failure here too, not only under C02
+                    Verdict::Skip(why) if nt && why.starts_with("go-rejected:") => {
+                        let errs = match behave::go_check(&go_text) {
+                            GoCheck::Rejected(e) => behave::describe_go_errors(&e, &go_text),
+                            _ => String::new(),
+                        };
+                        CaseOut::fail(
+                            format!("{}|{}", self.id, why.replacen(':', "|", 1)),
+                            format!("the emitted Go does not build\n{errs}\n--- goml source\n{text}"),
+                            key,
+                        )
+                        .labelled(labels)
+                    }
                     Verdict::Skip(why) => CaseOut::discard(&why),
                     Verdict::Fail(sig, detail) => {
                         CaseOut::fail(sig, format!("{detail}\n--- goml source\n{text}"), key).labelled(labels)
